@@ -20,10 +20,21 @@ import (
 	"golang.org/x/tools/go/ssa/ssautil"
 )
 
-const (
-	repoDir  = "/repo"
+// repoDir is /repo; SYMGO_REPO points the tool at a scratch copy instead (used
+// only by seeded/run_all.sh so that seeded changes never touch /repo), in
+// which case evidence and replays go to SYMGO_OUT.
+var (
+	repoDir  = envOr("SYMGO_REPO", "/repo")
 	verifDir = "/verif"
+	outDir   = envOr("SYMGO_OUT", "/verif")
 )
+
+func envOr(k, d string) string {
+	if v := os.Getenv(k); v != "" {
+		return v
+	}
+	return d
+}
 
 type JobSpec struct {
 	Name         string             `json:"name"`
@@ -576,11 +587,11 @@ func nativeReplay(js *JobSpec, ps map[string]int64, q *QueryResult, dir string) 
 	vals, _ := json.MarshalIndent(map[string]interface{}{"vals": q.Model, "params": ps, "entry": js.Entry, "label": q.Label, "kind": q.Kind, "pkg": js.Pkg}, "", " ")
 	valFile := filepath.Join(dir, "replay.json")
 	os.WriteFile(valFile, vals, 0644)
-	cmdline := fmt.Sprintf("cd %s && ZZ_REPLAY=%s ZZ_ENTRY=%s GOFLAGS=-mod=mod GOPROXY=off go test -vet=off -count=1 -run '^TestZZReplay$' -v -overlay %s ./%s", repoDir, valFile, js.Entry, ovFile, js.Pkg)
+	cmdline := fmt.Sprintf("cd %s && ZZ_PROP="+checkProp+" ZZ_REPLAY=%s ZZ_ENTRY=%s GOFLAGS=-mod=mod GOPROXY=off go test -vet=off -count=1 -run '^TestZZReplay$' -v -overlay %s ./%s", repoDir, valFile, js.Entry, ovFile, js.Pkg)
 	os.WriteFile(filepath.Join(dir, "replay.sh"), []byte("#!/bin/sh\n"+cmdline+"\n"), 0755)
 	cmd := exec.Command("timeout", "600", "go", "test", "-vet=off", "-count=1", "-run", "^TestZZReplay$", "-v", "-overlay", ovFile, "./"+js.Pkg)
 	cmd.Dir = repoDir
-	cmd.Env = append(goEnv(), "ZZ_REPLAY="+valFile, "ZZ_ENTRY="+js.Entry)
+	cmd.Env = append(goEnv(), "ZZ_REPLAY="+valFile, "ZZ_ENTRY="+js.Entry, "ZZ_PROP="+checkProp)
 	out, _ := cmd.CombinedOutput()
 	os.WriteFile(filepath.Join(dir, "output.txt"), out, 0644)
 	so := string(out)
